@@ -10,7 +10,8 @@ From Coq Require Import ZArith List Bool QArith Qcanon Lia.
 From Coq Require Import Permutation.
 From SG Require Import Base.QcUtil Model.CombiScheme Model.StdCombi Model.ExtendSplit Model.ESInterp
      Proofs.StdCombiSum Proofs.StdNodal Proofs.ESGeom Proofs.ESInv Proofs.ESTree Proofs.ESCombi Proofs.ESV0 Proofs.ESNodal Proofs.ESDict Proofs.ESShift Proofs.ESRestart Proofs.ESAssignFn.
-From SG Require Import Model.ESV3 Proofs.ESV3P Proofs.ESV12Low Model.ESAuto Proofs.ESAutoP Proofs.ESV2Full.
+From SG Require Import Model.ESV3 Proofs.ESV3P Proofs.ESV12Low Model.ESAuto Proofs.ESAutoP Proofs.ESV2Full Proofs.ESV1Full.
+From SG Require Import Model.ESExact Proofs.ESReach Proofs.ESReachV12.
 Import ListNotations.
 Open Scope Z_scope.
 
@@ -526,4 +527,61 @@ Example C07_nonvacuous_v2_general :
   Nat.ltb 1000 (length (local_combi (mkCP 6 2 2 9 2) 4)) = true /\
   dominating_sum (local_combi (mkCP 6 2 2 9 2) 4) [2; 2; 0; 0; 0; 0] = 1 /\
   existsb (fun g => lv_geb (fst g) [2; 2; 0; 0; 0; 0]) (local_combi (mkCP 6 2 2 9 2) 4) = true.
+Proof. vm_compute. repeat split; reflexivity. Qed.
+
+(* ==================================================================================================================
+   PHASE 5
+   ================================================================================================================== *)
+
+(* ---- coarsening version 1 (lmin-aware arithmetic, base = lmin): the FULL STATEMENT, GENERAL: every dimension >= 1, every
+   lmin <= lmax, every 0 <= c <= lmax - lmin.  With C07_local_combi_v0_valid, C07_local_combi_v2_valid and
+   C07_local_combi_v3_valid all four coarsening versions are proved in general; C07_local_combi_v12_valid_all_lmin_bounded is
+   subsumed.  Proof (Proofs/ESV1Full.v): as for version 2 with threshold delta = 1 and the top-diagonal discount
+   `coarsening >= occurences_of_max - is_top_diag`: two levels above K-1 make the cap K-1 cost at most c below the top
+   diagonal and at most c + 1 on it, where the discount (overdraft by one) pays for it; with a unique maximum every round has
+   one entry at the cap, so the discount never applies. *)
+Theorem C07_local_combi_v1_valid : forall n lmin lmax c, lmin <= lmax -> 0 <= c <= lmax - lmin ->
+  valid_local_combi (S n) (local_combi (mkCP (S n) 1 lmin lmax lmin) c) = true.
+Proof. exact local_combi_v1_valid. Qed.
+Print Assumptions C07_local_combi_v1_valid.
+
+(* the loop lemma with the discount: capping at j is reached when its cost fits the budget, or - on the top diagonal with at
+   least two levels above j - exceeds it by one *)
+Theorem C07_v1_reach_with_top_diagonal_discount : forall dimz lmin lmax c td j, lmin <= j -> lmax + lmin - c + 1 <= 2 * (j + 1) ->
+  forall f c' t, t <> [] -> c' <= Z.of_nat f ->
+  (cost j t <= c' \/ (td = true /\ 2 <= big j t /\ cost j t <= c' + 1)) ->
+  Forall (fun x => x <= j) (L1 dimz lmin lmax c td f c' t).
+Proof. exact L1_reach. Qed.
+Print Assumptions C07_v1_reach_with_top_diagonal_discount.
+
+Theorem C07_every_area_valid_local_combi_v1 :
+  forall n nrbe lmin lmax auto single a b bens0 hist x, wfbox a b -> length a = S n -> lmin <= lmax ->
+  let st := run_events2 (start_state (S n) 1 nrbe lmin lmax lmin auto single a b bens0) hist in
+  In x (st_objs st) -> valid_local_combi (S n) (area_grids (st_cp st) x) = true.
+Proof.
+  intros n nrbe lmin lmax auto single a b bens0 hist x Hbox Hdim Hlev st Hx. unfold st in *. clear st.
+  rewrite (area_grids_history2 (S n) 1 nrbe lmin lmax lmin auto single a b bens0 Hbox Hdim Hlev hist x Hx).
+  pose proof (coarsening_nonneg2 (S n) 1 nrbe lmin lmax lmin auto single a b bens0 Hbox Hdim Hlev hist x Hx) as C.
+  apply local_combi_v1_valid; lia.
+Qed.
+Print Assumptions C07_every_area_valid_local_combi_v1.
+
+(* ---- corollary for C04 (its theorem C04_es_reachable_multilinear_exact, hypotheses discharged): extend-split with coarsening
+   version 1 or 2 integrates every multilinear monomial exactly in every reachable state of every history, every dimension >= 1 *)
+Theorem C07_C04_es_multilinear_exact_v12 : forall n v nrbe lmin lmax auto single a b bens0 hist exps,
+  v = 1 \/ v = 2 -> wfbox a b -> length a = S n -> lmin <= lmax ->
+  length exps = S n -> Forall (fun k => (k <= 1)%nat) exps ->
+  es_integral a b (state_areas (run_events (start_state (S n) v nrbe lmin lmax lmin auto single a b bens0) hist)) exps
+  = bmom a b exps.
+Proof. exact es_reachable_multilinear_exact_v12. Qed.
+Print Assumptions C07_C04_es_multilinear_exact_v12.
+
+(* non-vacuity outside the enumerated box: d = 6, lmin = 2, lmax = 9, coarsening 4, version 1: (3,0,..,0) (unique maximum above
+   the threshold) and (1,1,0,..) (below it) are dominated with coefficient sum 1; (2,2,0,..) is not dominated at all *)
+Example C07_nonvacuous_v1_general :
+  Nat.ltb 1000 (length (local_combi (mkCP 6 1 2 9 2) 4)) = true /\
+  dominating_sum (local_combi (mkCP 6 1 2 9 2) 4) [3; 0; 0; 0; 0; 0] = 1 /\
+  dominating_sum (local_combi (mkCP 6 1 2 9 2) 4) [1; 1; 0; 0; 0; 0] = 1 /\
+  existsb (fun g => lv_geb (fst g) [3; 0; 0; 0; 0; 0]) (local_combi (mkCP 6 1 2 9 2) 4) = true /\
+  existsb (fun g => lv_geb (fst g) [2; 2; 0; 0; 0; 0]) (local_combi (mkCP 6 1 2 9 2) 4) = false.
 Proof. vm_compute. repeat split; reflexivity. Qed.
